@@ -59,7 +59,7 @@ Hypothesis Hgood : good_block g = true.
 (* a stored block passed the full verification, or the side-chain verification, which
    executes the body and checks signature, consensus field and state but does not
    compare the transaction root with the header (class 5) *)
-Definition goodish (b : block) : Prop := good_block b = true \/ bbv b = 5.
+Definition goodish (b : block) : Prop := good_block b = true.
 
 Record DInv (d : disk) : Prop := mkDInv {
   D_body : forall h, In h (d_hdr d) -> In h (d_body d) /\ In h (d_hnum d);
@@ -74,7 +74,7 @@ Lemma init_DInv : DInv (init_disk g).
 Proof.
   constructor; simpl.
   - intros h [<-|[]]; auto.
-  - intros h [<-|[]]. exists g. split; auto. split; [left; exact Hgood|]. split; auto.
+  - intros h [<-|[]]. exists g. split; auto. split; [exact Hgood|]. split; auto.
     intros Hn; congruence.
   - intros n h [E|[]]. inversion E; subst. split; auto. exists g; auto.
   - unfold canon; simpl. auto.
